@@ -40,13 +40,10 @@ func (f BalancerFunc) Balance(msg Message, partitions ...int) int {
 // This can be used to improve batch sizes.
 type RoundRobin struct {
 	ChunkSize int
-	// index is the position, in the partition list, of the partition that
-	// the current chunk of messages goes to, count is the number of messages
-	// of that chunk routed so far. Keeping the position instead of a count of
-	// the calls made means that nothing can wrap around, however long the
-	// balancer is used.
-	index int
-	count int
+	// counter is the number of calls made so far. It is only used with the
+	// mutex held, so it needs no atomic access and can be 64 bits wide on
+	// every platform: it does not wrap around in practice.
+	counter uint64
 
 	mutex sync.Mutex
 }
@@ -64,16 +61,13 @@ func (rr *RoundRobin) balance(partitions []int) int {
 		rr.ChunkSize = 1
 	}
 
-	if rr.count >= rr.ChunkSize {
-		// The chunk is complete, the next one goes to the next partition.
-		rr.count = 0
-		rr.index++
-	}
-	if rr.index >= len(partitions) {
-		rr.index = 0
-	}
-	rr.count++
-	return partitions[rr.index]
+	// The partition is derived from the number of calls made so far, so that
+	// a balancer shared between topics with different numbers of partitions
+	// (as the Writer's is) keeps spreading the messages of each of them over
+	// all of its partitions.
+	offset := rr.counter / uint64(rr.ChunkSize)
+	rr.counter++
+	return partitions[offset%uint64(len(partitions))]
 }
 
 // LeastBytes is a Balancer implementation that routes messages to the partition
